@@ -6933,8 +6933,9 @@ tsk_table_sorter_sort_edges(tsk_table_sorter_t *self, tsk_size_t start)
         }
     }
     qsort(sorted_edges, (size_t) n, sizeof(edge_sort_t), cmp_edge);
-    /* Copy the edges back into the table. */
-    metadata_offset = 0;
+    /* Copy the edges back into the table. The metadata of the rows before
+     * start stays where it is. */
+    metadata_offset = has_metadata ? edges->metadata_offset[start] : 0;
     for (j = 0; j < n; j++) {
         e = sorted_edges + j;
         k = start + j;
@@ -6986,7 +6987,7 @@ tsk_table_sorter_sort_migrations(tsk_table_sorter_t *self, tsk_size_t start)
     }
     qsort(sorted_migrations, (size_t) n, sizeof(migration_sort_t), cmp_migration);
     /* Copy the migrations back into the table. */
-    metadata_offset = 0;
+    metadata_offset = migrations->metadata_offset[start];
     for (j = 0; j < n; j++) {
         m = sorted_migrations + j;
         k = start + j;
